@@ -78,6 +78,19 @@ CHECKS = {
    "Blocks defined in the harness crate with the derive macro (sync 1..3 inputs x 1..3 outputs with mixed element types, default and into fields; sync_tag 1x1 and 2x2; a non-sync block with a packet output between two sample outputs) run under the drip-feed environment with uneven inputs and outputs. Every work() call is checked against the documented contract (steps == min over all streams, one sample per stream per step, wait target, values, tags), plus constructor return order and generated eof().",
    "Harness blocks are compiled by the macro crate in /repo; a macro change that stops them compiling shows as a build failure (exit 2), not as a violation.",
    "deterministic simulation: seeded drip-feed schedules over harness-defined derive blocks, per-step contract oracle", "5/C19"),
+
+ "C14": ("iosim", "fault_enumeration",
+   "Byte-level legs with the result size of every read()/recv()/write() on the block's descriptors decided by the run's fault plan (1-byte, sample-1, sample+1, random, large; cuts inside a sample): Sample codec identity on arbitrary bit patterns; FileSink -> file -> FileSource round trip; SigMFSource from a recording and from a tar archive (seeded member order, unrelated members); AuEncode -> AuDecode against the PCM16 quantisation; TcpSource over loopback with exact recv() segmentation (MSG_WAITALL). Oracle: byte/sample identity and exact counts.",
+   "EINTR on reads not injected; loopback TCP with a harness peer; NaN payloads compared raw.",
+   "deterministic simulation: syscall seam (short reads/writes at link-time-interposed read/recv/write) x seeded delivery schedules, identity oracle", "5/C14"),
+ "C17": ("iosim", "fault_enumeration",
+   "Enumerated: 3 modes x 5 initial states x 2 sinks against the documented truth table. Seeded: a re-exec'd child streams data through the sink; the fault plan kills it (SIGKILL) at the N-th write() on the sink after a torn prefix of k bytes, or injects short writes / one EINTR; after every work() the child records how much was consumed. Parent oracle: file is a prefix of (old content +) serialised stream and contains at least everything acknowledged; complete when not killed.",
+   "Process death, not power loss. 'Unwritable' realised as missing parent / directory (root ignores mode bits).",
+   "deterministic simulation: crash injection at every write boundary with torn writes (child process), short writes, EINTR; prefix + acknowledged-durability oracle", "5/C17"),
+ "C18": ("iosim", "fault_enumeration",
+   "Single-worker runs so that process-wide counts are exact: seeded create/drop histories of 1..20 streams (valid and invalid sizes, element sizes dividing and not, creation/drop on other threads) between canary mappings, with one optional fault (1st or 2nd mmap of a creation -> ENOMEM, ftruncate -> ENOSPC, descriptor limit reached). Checks: aliasing through a window spanning the wrap (every offset of a one-page buffer is enumerated), Err not panic, empty mmap/munmap ledger, /proc/self/maps deleted-file mappings and /proc/self/fd back to baseline, canaries intact, a fresh stream still works.",
+   "tempfile creation cannot be failed at the libc seam (raw syscalls); address-space exhaustion modelled as ENOMEM at a chosen mmap index.",
+   "deterministic simulation: syscall-seam fault injection (mmap/ftruncate/fd limit) over seeded create/drop histories, leak ledger + /proc oracle", "5/C18"),
 }
 PENDING_REASON = "check not built yet in this session (planned in DESIGN.md section 5); not a claim that the property is out of reach"
 
@@ -113,6 +126,7 @@ def main():
         "engines": [
             {"name": "mtsim", "path": "sim/src/rt.rs, sim/src/mt.rs, sim/src/graphs.rs", "serves_properties": ["C03", "C04", "C05", "C07"], "kind_free_text": "baton scheduler over real OS threads behind the std shim: one seeded decision per lock/unlock/wait/notify/time-out/spawn/join/atomic point; real MTGraph and streams"},
             {"name": "graphsim", "path": "sim/src/graphsim.rs", "serves_properties": ["C06", "C07"], "kind_free_text": "real Graph::run under virtual time on generated graphs, add-order permutations"},
+            {"name": "iosim", "path": "sim/src/sys.rs, sim/src/iosim.rs", "serves_properties": ["C14", "C17", "C18"], "kind_free_text": "syscall seam: read/recv/write/mmap/munmap/ftruncate defined in the binary (link-time interposition), thread-local fault plans; crash runs in a re-exec'd child"},
             {"name": "rig", "path": "sim/src/rig.rs, sim/src/blocks.rs, sim/src/rigcheck.rs", "serves_properties": ["C08", "C09", "C10", "C11", "C12", "C13", "C15", "C16", "C19"], "kind_free_text": "drip-feed environment for one block: harness owns all peers of a real block on real streams; seeded feed/drain/work schedules; virtual time"},
             {"name": "bufsim", "path": "sim/src/bufsim.rs", "serves_properties": ["C01", "C02"], "kind_free_text": "seeded single-thread op-history simulator over Buffer<T> with a deque reference model"},
         ],
